@@ -47,7 +47,7 @@ func (t *TV) UnmarshalJSON(b []byte) error {
 		t.V = *r.V
 	}
 	switch r.T {
-	case "m":
+	case "m", "mm":
 		t.KV = map[string]*TV{}
 		kv := bytes.TrimSpace(r.KV)
 		if len(kv) > 0 && kv[0] == '{' {
@@ -73,7 +73,7 @@ func (t *TV) UnmarshalJSON(b []byte) error {
 
 func (t *TV) MarshalJSON() ([]byte, error) {
 	switch t.T {
-	case "m":
+	case "m", "mm":
 		kv := t.KV
 		if kv == nil {
 			kv = map[string]*TV{}
@@ -81,7 +81,7 @@ func (t *TV) MarshalJSON() ([]byte, error) {
 		return json.Marshal(struct {
 			T  string         `json:"t"`
 			KV map[string]*TV `json:"kv"`
-		}{"m", kv})
+		}{t.T, kv})
 	case "l", "ls", "lm":
 		it := t.It
 		if it == nil {
@@ -180,6 +180,12 @@ func (t *TV) ToGo() interface{} {
 			l[i] = subst(v.V)
 		}
 		return l
+	case "mm":
+		m := make(mxj.Map, len(t.KV))
+		for k, v := range t.KV {
+			m[subst(k)] = v.ToGo()
+		}
+		return m
 	case "lm":
 		l := make([]map[string]interface{}, len(t.It))
 		for i, v := range t.It {
@@ -312,6 +318,46 @@ func SharedContainer(v interface{}) string {
 		return ""
 	}
 	return walk(v, "")
+}
+
+// InternGo returns a value equal to v in which equal maps and equal non-empty lists are ONE object (the same document, held
+// as a graph instead of a tree: what a caller gets who puts one sub-document into a Map at several places).
+func InternGo(v interface{}) interface{} {
+	pool := map[string]interface{}{}
+	var walk func(x interface{}) interface{}
+	walk = func(x interface{}) interface{} {
+		switch c := x.(type) {
+		case mxj.Map:
+			return walk(map[string]interface{}(c))
+		case map[string]interface{}:
+			key := "m" + CanonGo(c)
+			if o, ok := pool[key]; ok {
+				return o
+			}
+			n := make(map[string]interface{}, len(c))
+			for k, e := range c {
+				n[k] = walk(e)
+			}
+			pool[key] = n
+			return n
+		case []interface{}:
+			if len(c) == 0 {
+				return c
+			}
+			key := "l" + CanonGo(c)
+			if o, ok := pool[key]; ok {
+				return o
+			}
+			n := make([]interface{}, len(c))
+			for i, e := range c {
+				n[i] = walk(e)
+			}
+			pool[key] = n
+			return n
+		}
+		return x
+	}
+	return walk(v)
 }
 
 // Canon is a deterministic rendering used for equality and as bag key.
